@@ -20,6 +20,13 @@ CHECKS["C12"] = dict(
     note="Trusted: Coq kernel incl. vm_compute; the fail-closed translator mathtable.py (literal table rows, textual normal form of add_function_mapping and find_known_functions.visit_Call, README regex, builtins' __module__ from the interpreter); the hand-written <cmath> signature table; what each std:: function computes (C library). Traces are tests.",
     technique="Coq proof by computation over a table regenerated from source + end-to-end traces",
 )
+CHECKS["C08"] = dict(
+    category="proof",
+    text="Partial. Proved in Coq over a hand model of the repository's own binding machinery (func_adl argument_stack as driven by visit_Call_Lambda / visit_Name / resolve_id, and the name-keyed rewriters cpp_ast_finder / find_known_functions): lexically alpha-equivalent queries (any renaming of lambda parameters, shadowing appearing or disappearing) resolve to the same nameless term whenever no lambda is applied directly to an unevaluated argument (C08_alpha_partial, C08_alpha_open); every consistent injective renaming leaves the resolved term unchanged for the whole model, dynamic scoping included (C08_rename, C08_rename_general); the rewriters commute with renamings that respect the table of rewritten names and keep the fragment (C08_rewrite_name_keyed, C08_rewrite_no_app, C08_pipeline_rename); anything computed from the resolved term inherits this (C08_translation_invariant). Full alpha-invariance is refuted for the faithful model (C08_alpha_refuted: dynamic scoping of visit_Call_Lambda; C08_known_function_param_refuted: rewriters ignore binding) and both witnesses are replayed on the implementation (known findings). Invariance under the qastle round trip, MetaData placement and hand fusion is NOT proved (third-party qastle / func_adl): it is tested differentially on generated queries over the three back ends, and reported as tests.",
+    design_ref="5.8",
+    note="Trusted: Coq kernel (vm_compute only in the two refutation witnesses and the Examples); the hand model Binding.v (names only: C++ statements, types, rep caching and node sharing are abstracted; a lambda that is not applied directly is modelled as applied to closed translator values); extraction + OCaml driver + S-expression codec; the correspondence (model-resolved term printed back as a query with unique names vs. the original query, whole pipeline, equal normalised packages) is a differential test bounded by its generator; the four variant comparisons are tests of third-party code. Known findings: direct-application capture, func_adl fusion capture, First() diagnostic quoting parameter names, parameters named like known functions / operators.",
+    technique="Coq proof over a hand model (nameless resolution, environment-based alpha-equivalence) + black-box model correspondence + differential variant testing",
+)
 NOT_YET = {}
 
 def main():
